@@ -2,6 +2,8 @@
 package c16
 
 import (
+	"fmt"
+	"os"
 	"strings"
 
 	"golang.org/x/tools/go/ssa"
@@ -15,10 +17,16 @@ import (
 func init() {
 	props.Register(&props.Prop{
 		ID: "C16",
-		Explanation: "Identity plumbing of the spatial indices, decided on source: ORD-2 — no query keeps the address of a per-loop " +
-			"variable (go.mod selects pre-1.22 loop semantics) in a queue item / slice / map that outlives the iteration, so the element a " +
-			"query returns is the element it measured. Decides a necessary condition of 'same element identities as exhaustive search'; " +
-			"does not decide geometric correctness of pruning, the slab test, or tie handling.",
+		Explanation: "Structural necessary conditions of 'index queries return what an exhaustive scan returns', decided on source (go/ssa, type-resolved roles): " +
+			"ORD-2 no query keeps the address of a per-loop variable (go.mod selects pre-1.22 loop semantics) beyond the iteration; " +
+			"ORD-3/KEY-1 every priority key of the best-first queue is the same distance function of (closest point of the queued cell's bounds | of the queued element's primitive, query) and the stored point is the point measured; " +
+			"PRUNE-1 every test that decides whether a cell's content is visited (entry test, guard of the recursion) is the element acceptance test with the cell bounds substituted (so > prunes exactly what <= would not accept); " +
+			"CHILD-1 every query visits all children and all elements (full-range loops, no early exit, only nil checks / the bounds predicate skip); " +
+			"IDENT-1 every index emitted is elements[i].originalIndex of the element tested, results are built only from emissions and recursive results, and originalIndex is assigned from the input position next to that input's primitive and bounding box; " +
+			"BND-1 node bounds are one element's bounds (single-element leaf) or a box grown by EncapsulateBounds over every element of the slice being distributed; " +
+			"CONS-1 the distribution loop puts every element in exactly one bucket/list, every bucket is recursed once, bucket indices are in range, every non-nil child and every set-aside element is kept; " +
+			"BVH-1 NewBVHTree splits [start,end) at a midpoint into the two children and sorts only that range; BVH-2 BVHNode.Hit tests the box first, consults both children, bounds the second search by the first hit, returns either. " +
+			"Not decided: that pruning by bounds is geometrically correct for every layout, the slab test, tie handling, numeric error.",
 		Controls: controls,
 		Run:      run,
 	})
@@ -27,6 +35,10 @@ func init() {
 func controls() map[string]string {
 	return map[string]string{
 		"trees/zz_verif_control_c16.go": `package trees
+
+import (
+	"github.com/EliCDavis/vector/vector3"
+)
 
 type verifCtlItem struct{ e *elementReference }
 
@@ -56,6 +68,135 @@ func verifControlORD2Good(es []elementReference) []verifCtlItem {
 	}
 	return out
 }
+
+// must fire (PRUNE-1): the cell is pruned with >= where elements are accepted with <=
+func (ot OctTree) verifControlPRUNEBad(position vector3.Float64, distance float64) []int {
+	if ot.bounds.ClosestPoint(position).Distance(position) >= distance {
+		return nil
+	}
+	points := make([]int, 0)
+	for _, ele := range ot.elements {
+		if ele.bounds.ClosestPoint(position).Distance(position) <= distance {
+			points = append(points, ele.originalIndex)
+		}
+	}
+	for _, child := range ot.children {
+		points = append(points, child.verifControlPRUNEBad(position, distance)...)
+	}
+	return points
+}
+
+// must stay silent: the same query with the cell test moved to the recursion site, operands swapped, counted loops
+func (ot OctTree) verifControlPRUNEGood(position vector3.Float64, distance float64) []int {
+	var points []int
+	for i := 0; i < len(ot.elements); i++ {
+		d := ot.elements[i].bounds.ClosestPoint(position).Distance(position)
+		if distance >= d {
+			points = append(points, ot.elements[i].originalIndex)
+		}
+	}
+	for i := 0; i < len(ot.children); i++ {
+		child := ot.children[i]
+		if child == nil || child.bounds.ClosestPoint(position).Distance(position) > distance {
+			continue
+		}
+		points = append(points, child.verifControlPRUNEGood(position, distance)...)
+	}
+	return points
+}
+
+// must fire (CHILD-1): the first child is never searched
+func (ot OctTree) verifControlCHILDBad(v vector3.Float64) []int {
+	out := make([]int, 0)
+	for i := 0; i < len(ot.elements); i++ {
+		if ot.elements[i].bounds.Contains(v) {
+			out = append(out, ot.elements[i].originalIndex)
+		}
+	}
+	for i := 1; i < len(ot.children); i++ {
+		out = append(out, ot.children[i].verifControlCHILDBad(v)...)
+	}
+	return out
+}
+
+// must fire (IDENT-1): the position inside the leaf is returned instead of the original index
+func (ot OctTree) verifControlIDENTBad(v vector3.Float64) []int {
+	out := make([]int, 0)
+	for i := 0; i < len(ot.elements); i++ {
+		if ot.elements[i].bounds.Contains(v) {
+			out = append(out, i)
+		}
+	}
+	for _, child := range ot.children {
+		out = append(out, child.verifControlIDENTBad(v)...)
+	}
+	return out
+}
+
+// must fire (KEY-1): the key of an element is measured to its box, the point stored is on the primitive
+func verifControlKEYBad(e *elementReference, v vector3.Float64) octDistItem {
+	return octDistItem{dist: e.bounds.ClosestPoint(v).DistanceSquared(v), element: e, point: e.primitive.ClosestPoint(v)}
+}
+
+// must stay silent (KEY-1)
+func verifControlKEYGood(e *elementReference, v vector3.Float64) octDistItem {
+	p := e.primitive.ClosestPoint(v)
+	return octDistItem{point: p, element: e, dist: p.DistanceSquared(v)}
+}
+
+// must fire (ORD-3): plain distance where the repository's keys are squared
+func verifControlORDBad(cell *OctTree, v vector3.Float64) octDistItem {
+	return octDistItem{dist: cell.bounds.ClosestPoint(v).Distance(v), cell: cell}
+}
+
+// must fire (BND-1): the loop that grows the bounds stops at the first big element
+func verifControlBNDBad(elements []elementReference) *OctTree {
+	bounds := elements[0].bounds
+	for _, item := range elements {
+		if item.bounds.Volume() > 100 {
+			break
+		}
+		bounds.EncapsulateBounds(item.bounds)
+	}
+	return &OctTree{bounds: bounds, elements: elements}
+}
+
+// must stay silent (BND-1): counted loop, element bounds read through the index
+func verifControlBNDGood(elements []elementReference) *OctTree {
+	box := elements[0].bounds
+	for i := 0; i < len(elements); i++ {
+		box.EncapsulateBounds(elements[i].bounds)
+	}
+	return &OctTree{elements: elements, bounds: box}
+}
+`,
+		"rendering/zz_verif_control_c16.go": `package rendering
+
+// must fire (BVH-2): the second child is searched up to max even after the first one hit
+func (bvhn BVHNode) verifControlBVHBad(r *TemporalRay, min, max float64, hitRecord *HitRecord) bool {
+	if !bvhn.box.IntersectsRayInRange(r.Ray(), min, max) {
+		return false
+	}
+	left := bvhn.left.Hit(r, min, max, hitRecord)
+	right := bvhn.right.Hit(r, min, max, hitRecord)
+	return left || right
+}
+
+// must stay silent (BVH-2): right child first, explicit if/else
+func (bvhn BVHNode) verifControlBVHGood(r *TemporalRay, min, max float64, hitRecord *HitRecord) bool {
+	if bvhn.box.IntersectsRayInRange(r.Ray(), min, max) {
+		hitR := bvhn.right.Hit(r, min, max, hitRecord)
+		limit := max
+		if hitR {
+			limit = hitRecord.Distance
+		}
+		if bvhn.left.Hit(r, min, limit, hitRecord) {
+			return true
+		}
+		return hitR
+	}
+	return false
+}
 `,
 	}
 }
@@ -73,6 +214,27 @@ func run(c *props.Ctx) {
 		fns = append(fns, c.P.FuncsOf(sp)...)
 	}
 	ord2(c, fns)
+	if a := resolveAnchors(c); a != nil {
+		a.checkKeys()
+		a.checkHeap()
+		a.checkQueries()
+		a.checkQueueQueries()
+		a.checkIndexAssignment()
+		a.checkBuilders()
+	}
+	checkBVH(c)
+	c.R.Floor("KEY-1", 2)
+	c.R.Floor("ORD-3", 1)
+	c.R.Floor("CHILD-1", 7)
+	c.R.Floor("IDENT-1", 4)
+	c.R.Floor("PRUNE-1", 3)
+	c.R.Floor("BND-1", 2)
+	c.R.Floor("CONS-1", 3)
+	if os.Getenv("C16_DEBUG") != "" {
+		for _, o := range c.R.Obs {
+			fmt.Printf("  [%s] %-8s %-60s %s %s\n", o.Verdict, o.Rule, o.Construct, o.Msg, fmt.Sprint(o.Facts))
+		}
+	}
 }
 
 func ord2(c *props.Ctx, fns []*ssa.Function) {
